@@ -12,8 +12,8 @@ EXTENDS Regexp, RegexpUniverses, Json
 
 CONSTANTS Part, NParts, CandLen
 
-VARIABLES di, dd, dp, s, parsed, fixed, cand, like
-vars == <<di, dd, dp, s, parsed, fixed, cand, like>>
+VARIABLES di, dd, dp, s, parsed, fixed, cand, like, ovr
+vars == <<di, dd, dp, s, parsed, fixed, cand, like, ovr>>
 
 USeq == SetToSeq(U_C18)
 ASSUME Part = 0 => PrintT(<<"UNIV", ToJson(USeq)>>)
@@ -35,6 +35,8 @@ LikesOf(vals, n) ==
     ELSE {[n |-> n, kind |-> "starts", b |-> <<x[1]>>], [n |-> n, kind |-> "ends", b |-> <<x[Len(x)]>>],
           [n |-> n, kind |-> "contains", b |-> <<x[(Len(x) + 1) \div 2]>>], [n |-> n, kind |-> "starts", b |-> x],
           [n |-> n, kind |-> "ends", b |-> x]}
+HasExprSize(fs) == \E i \in 1..Len(fs) : fs[i].k = "Data" /\ fs[i].size.m = "expr"
+IntNames(fs) == {fs[i].name : i \in {j \in 1..Len(fs) : fs[j].k = "Int"}}
 ValueNames(fs) == {fs[i].name : i \in {j \in 1..Len(fs) : fs[j].k \in {"Int", "Data", "Bits"}}}
 
 Init == LET us == USeq IN
@@ -48,12 +50,16 @@ Init == LET us == USeq IN
                        \cup (IF fixed # {} THEN {}      \* (placeholders with an expression: next to plain Any everywhere else)
                              ELSE UNION {LikesOf(parsed, n) : n \in {x \in DataNames(d.prog["C0"].fields) : HasVal(parsed, x)}})
             /\ cand \in CandOf(d, s)
+            \* a pattern need not come from a parse: one fixed integer may be given ANOTHER value (0): building the expression
+            \* must still work, whatever a size expression makes of that value
+            /\ ovr \in {""} \cup (IF like.kind = "none" /\ HasExprSize(d.prog["C0"].fields) /\ fixed = IntNames(d.prog["C0"].fields)
+                                 THEN IntNames(d.prog["C0"].fields) ELSE {})
 Next == UNCHANGED vars
 Spec == Init /\ [][Next]_vars
 
 DP == dp
 Parsed == parsed
-Pattern == [i \in 1..Len(Parsed) |-> [n |-> Parsed[i].n, lit |-> Parsed[i].n \in fixed, v |-> Parsed[i].v,
+Pattern == [i \in 1..Len(Parsed) |-> [n |-> Parsed[i].n, lit |-> Parsed[i].n \in fixed, v |-> IF Parsed[i].n = ovr THEN IntV(0) ELSE Parsed[i].v,
                                         like |-> IF like.n = Parsed[i].n THEN [kind |-> like.kind, b |-> like.b] ELSE NoLike]]
 Tokens == Render(dd.prog, "C0", Pattern)
 AnyEqUsed == \E i \in 1..Len(dd.prog["C0"].fields) :
@@ -61,7 +67,7 @@ AnyEqUsed == \E i \in 1..Len(dd.prog["C0"].fields) :
                 f.k = "Data" /\ f.size.m = "expr" /\ ~PLook(Pattern, f.name).lit /\ UsesAnyEq(f.size.e, Pattern)
 
 \* the pre-filter never rejects a matching packet (named deviation F9c: == on an Any-valued field in a size expression)
-Inv_C18_Sound == AnyEqUsed \/ MatchesPrefix(Tokens, s)
+Inv_C18_Sound == AnyEqUsed \/ ~EqPattern(Parsed, Pattern) \/ MatchesPrefix(Tokens, s)
 \* a candidate the expression matches and that unpacks... is not required to equal the pattern (the filter is only a
 \* pre-filter); but a candidate that unpacks to a packet equal to the pattern must be matched
 CandParsed == DoUnpack(DP, "C0", cand, <<>>)
